@@ -431,8 +431,7 @@ def run(ctx):
     ctx.assumptions += [
         "theorems are about exact real arithmetic (Real.rpow, Real.sqrt, Real.exp, Real.log); IEEE rounding, overflow and libm are not modelled — the Float instantiation of the same definitions is compared with the real classes (bit-identical on this platform, tolerance %g)" % REL_TOL,
         "tables: Gen/Verner.lean is regenerated from the shipped data files on every run; the decimal literals denote the exact rationals of the files; the constructor conversions (eV -> Hz, pre-inversion) are part of the model and compared bit for bit with _data_A/_data_B/_data_C/_rrec/_rnew/_fe of the real objects",
-        "strict positivity of the metal recombination rates (radiative + dielectronic) up to 1e5 K is proved only for the 8 ions whose dielectronic term is non-negative there (metal_rate_pos_partial); for N_p2, O_n, O_p1, Ne_p1 it is searched on the temperature grid (oracle recombination-rate-not-positive-below-1e5K on the implementation)",
-        "'sampled frequencies follow the cumulative distribution' is proved only as 'the linear samplers invert the piecewise-linear table CDF' (sample_follows_table_cdf_partial); that the tables are the physical CDFs is searched: monotonicity of nu(u) and the deviation from an independently integrated Planck / uniform / linearly-masked distribution are evaluated on the implementation's samples (tolerance = one table bin)",
+        "'sampled frequencies follow the cumulative distribution': proved as 'the sampler is the exact inverse of its table' for the linear samplers (piecewise-linear CDF) and the Planck sampler (log-log interpolated CDF); for the Lyman continua only the exact formula is proved (t-weighted mix of the lower bin edges containing u in the two bracketing temperature tables: no interpolation inside the frequency bin, mix of quantiles instead of quantile of a mix) — sample_follows_table_cdf_lyman_partial; that the tables are the physical CDFs is searched: monotonicity of nu(u) and the deviation from an independently integrated Planck / uniform / linearly-masked distribution are evaluated on the implementation's samples (tolerance = one table bin)",
         "sampler theorems take the table properties as hypotheses (cumulative table sorted with ends 0 and 1, frequency / temperature tables increasing, Planck log tables = log10 of the linear ones, first-bin floor 1e-10 < cdf[1]); the harness checks these hypotheses on every real table it constructs (ORACLE table-hypothesis)",
         "random numbers: u in [1e-10, 1) as in the property statement (u < 1e-10, in particular u = 0 which RANLUX can return, leaves the first bin of the log-log Planck interpolation: outside the stated domain)",
         "locate: length >= 2 (all call sites pass 1000, 100, 41 or the number of mask bins); for length <= 1 the unsigned arithmetic of the C++ wraps around",
@@ -611,13 +610,16 @@ MANIFEST = dict(
           "exactly 0 below the thresholds of its shells, and in each energy range equals the published Verner & Yakovlev 1995 resp. Verner et al. 1996 formula of the row of the shipped table, at E = h nu in eV); "
           "table_wellformed, rec_table_wellformed, ion_shells_physical, used_shells_le_nout over Gen/Verner.lean, regenerated from /repo/data and the C++ switch on every run; alphaH_pos_strictAnti, alphaHe_pos_strictAnti "
           "(positive and strictly decreasing on T > 0); rates_nonneg (recombination incl. dielectronic terms and the final max(0,.), and the three charge-transfer functions, >= 0 for every ion and T); verner_rate_pos "
-          "(radiative fits > 0 for T > 0); locate_spec (index <= length-2 and bracket for every table size by induction over the bisection; last-entry-below-x, x <= first -> 0, x > last -> n-2 for sorted tables); "
-          "sample_in_range_planck / _linear / _lyman / _uniform_mono (sampled frequency inside the table range; Lyman continua for EVERY temperature and random number after the clamp of 93322ae). "
-          "PARTIAL: metal_rate_pos_partial proves strict positivity up to 1e5 K for C_p1, C_p2, N_n, N_p1, Ne_n, S_p1, S_p2, S_p3 only (N_p2, O_n, O_p1, Ne_p1: searched on the implementation); "
-          "sample_follows_table_cdf_partial proves that the linear samplers invert the piecewise-linear table CDF exactly, 'the tables are the CDFs of the physical spectra' and the Planck/Lyman analogues are searched. "
+          "(radiative fits > 0 for T > 0); rate_pos_upto_1e5 (the TOTAL rate radiative + dielectronic of all 14 ions is > 0 for every 0 < T <= 1e5 K; for N_p2, O_n, O_p1, whose dielectronic polynomial is negative at low T, by "
+          "interval bounds exp(-f/x) <= k!(x/f)^k and rational certificates for sqrt / rpow of the radiative fit); locate_spec (index <= length-2 and bracket for every table size by induction over the bisection; "
+          "last-entry-below-x, x <= first -> 0, x > last -> n-2 for sorted tables); sample_in_range_planck / _linear / _lyman / _uniform_mono (sampled frequency inside the table range; Lyman continua for EVERY temperature "
+          "and random number); sample_follows_table_cdf_linear / _planck (the sampler is the exact inverse of its table's CDF, piecewise linear resp. linear in log-log). "
+          "PARTIAL: sample_follows_table_cdf_lyman_partial states exactly what the two-table Lyman formula returns (t-weighted mix of the lower bin edges containing u), which matches a distribution only at bin resolution; "
+          "'the tables are the CDFs of the physical spectra' is searched. "
           "Tie: Float instantiation of the same definitions vs the real classes (100% bit-identical), property oracles on the implementation, reference values of the repo's own test data."),
     note=("Trusted: Lean kernel + 3 standard axioms; translator tools/gen_c18_tables.py (render-back stream `tables`: generated rows after the model's constructor stage == _data_A/_data_B/_data_C/_rrec/_rnew/_fe of the real "
           "objects, bit for bit); hand model of the fit formulae, dielectronic terms, charge-transfer fits, locate and samplers (tied by correspondence, tolerance 1e-10); theorems are about real arithmetic, not IEEE doubles "
           "(finiteness / overflow only observed on the grids); sampler theorems take sortedness and end values of the tables as hypotheses, which the harness checks on every real table; u in [1e-10, 1) as in the property "
-          "(u = 0 or u < 1e-10, which RANLUX can return with probability 1e-10, leaves the Planck range: outside the stated domain); Planck table construction itself is not modelled."),
-    technique="Lean 4 proof (Real.rpow / sqrt / exp / log monotonicity, nlinarith for the dielectronic polynomials, induction over the bisection) + tables generated from the shipped data + differential correspondence with oracles")
+          "(u = 0 or u < 1e-10, which RANLUX can return with probability 1e-10, leaves the Planck range: outside the stated domain); Planck table construction itself is not modelled; Lyman samplers do not interpolate "
+          "inside a frequency bin (distribution matched at bin resolution only: searched)."),
+    technique="Lean 4 proof (Real.rpow / sqrt / exp / log monotonicity, interval bounds with rational certificates, nlinarith for the dielectronic polynomials, induction over the bisection) + tables generated from the shipped data + differential correspondence with oracles")
